@@ -10,6 +10,7 @@ from . import c01
 
 PROPERTY = "C04"
 LEVEL = "exploration"
+TECHNIQUE = 'property-based testing (Hypothesis) over balanced-by-construction networks; oracle = zero polynomial of composition- and charge-weighted ydot sums, GetElementAbund vs generator-side compositions'
 RULE = (
     "Balanced-by-construction networks (reactant atoms and charge are partitioned into the products; ions, electrons "
     "spelled e- and E in the same network, o/p/m labels, D isotopologues, freeze-out/desorption pairs and surface "
